@@ -142,8 +142,11 @@ class Sym:
         if isinstance(v, SetV):
             return SetV(self.array(name, v.arr.sort().domain(), z3.BoolSort()))
         if isinstance(v, ObjSeq):
-            return ObjSeq(v.cls, v.length, {f: (a if isinstance(a, (list, tuple)) else self.array("%s.%s" % (name, f), z3.IntSort(), a.sort().range()))
-                                            for f, a in v.fields.items()})
+            ln = self.int(name + ".len")
+            self.ex.assume(ln >= 0)
+            return ObjSeq(v.cls, ln, {f: ([self.array("%s.%s%d" % (name, f, q), z3.IntSort(), x.sort().range()) for q, x in enumerate(a)] if isinstance(a, (list, tuple))
+                                          else self.array("%s.%s" % (name, f), z3.IntSort(), a.sort().range()))
+                                      for f, a in v.fields.items()})
         if isinstance(v, DictV):
             return DictV(self.array(name + ".dom", v.dom.sort().domain(), z3.BoolSort()),
                          self.array(name + ".val", v.val.sort().domain(), v.val.sort().range()))
@@ -464,6 +467,8 @@ class Executor:
 
     # ---- loops
     def loop_spec(self, node):
+        if node not in self.loop_nodes:
+            return -1, None          # loop of an inlined helper: only concrete iteration (unrolling) is possible
         ordinal = self.loop_nodes.index(node)
         spec = self.contract.loops.get(ordinal)
         return ordinal, spec
@@ -1357,7 +1362,7 @@ class Executor:
         tag = "call@L%d:%s" % (node.lineno - self.fn.lineno, c.qualname.split(".")[-1])
         for item in c.pre(S, cenv):
             cl = clause(item)
-            self.oblige("%s/pre#%s" % (tag, cl.name), cl.expr, node, "call-pre", uses=cl.uses)
+            self.oblige("%s/pre#%s" % (tag, cl.name), cl.expr, node, "call-pre", uses=cl.uses, by=cl.by, prop=cl.prop)
         old = V.clone(cenv)
         # havoc the frame
         if receiver is not None:
@@ -1369,6 +1374,8 @@ class Executor:
             if isinstance(v, Seq):
                 nv = S.like(v, "%s.%s" % (tag, pn))
                 v.items, v.length, v.arr = None, nv.length, nv.arr
+        if hasattr(c, "havoc"):
+            c.havoc(S, cenv, tag)        # frame given by the sidecar for nested object structures
         result = c.result(S, cenv) if hasattr(c, "result") else None
         for item in c.post(S, old, cenv, result):
             cl = clause(item)
